@@ -799,5 +799,6 @@ package objects
 //@   props C06 C13
 //@   sweep
 //@   mode nopanic=off
+//@   holds forall k string :: (k in sa.placeholderData) ==> sa.placeholderData[k] != nil
 //@   at[tracked] fieldaddr PlaceholderData.TimedOut#*: assert base != nil
 //@   at[releaseall] call objects.Application.removeAsksInternal#1: assert arg1 == ""
